@@ -1,6 +1,6 @@
 #!/bin/bash
 # Runs every seeded change against the quick check of the property it targets (and extra properties given as KEY=Cxx,Cyy).
-# Output: one line per (change, check).  usage: tools/seedmatrix.sh [tier]
+# Output: one line per (change, check), sorted; JOBS changes run in parallel (scratch copies, see seedrun.sh).  usage: [JOBS=5] tools/seedmatrix.sh [tier]
 T=${1:-quick}
 cd /verif
 for d in seeded/*/ mutants/*/; do
@@ -22,5 +22,5 @@ for d in seeded/*/ mutants/*/; do
     revert-fix5) p=C10;; revert-fix6) p="C14 C09";; revert-fix7) p=C09;; revert-fix8) p=C09;; revert-fix9) p="C15 C02";;
     *) continue;;
   esac
-  for q in $p; do tools/seedrun.sh $n $q $T 2>&1 | tail -1 | cut -c1-260; done
-done
+  for q in $p; do echo "$n $q $T"; done
+done | xargs -P ${JOBS:-5} -L 1 tools/seedrun.sh 2>&1 | grep " vs C" | cut -c1-260 | sort
